@@ -38,8 +38,9 @@ def hierarchies(tier):
             shapes, ("generated", "handwritten"), (None, "nodefault", "default"), (False, True), (False, True), (False, True)):
         if shape in ("spec_plain_spec", "diamond", "siblings") and (key or overflow or noinit or factory):
             continue
-        if ctor == "handwritten" and (key or noinit):
-            continue  # the documented hand-written shape has no key handling / init=False attributes
+        if ctor == "handwritten" and (key == "nodefault" or noinit):
+            continue  # the documented hand-written shape has no init=False attributes; a key without default is left out
+                      # (whether the signature default of the hand-written constructor then counts is not stated)
         if shape == "multi" and ctor == "handwritten" and not (key or overflow or noinit or factory):
             out.append({"shape": shape, "ctor": ctor, "key": key, "overflow": overflow, "noinit": noinit, "factory": factory, "shared": True})
         if shape == "multi" and (key or ctor == "handwritten"):
